@@ -2,7 +2,7 @@
 # tools/intake_seeds.sh C01 C02 ...: confirm /tmp/seedout/<P>/{a,b} with seedcheck (full suite) and keep them as seeded/<P>-3, <P>-4
 cd /verif
 for P in "$@"; do
-  n=3
+  n=${SEEDNUM:-3}
   for v in a b; do
     d=/tmp/seedout/$P/$v
     if [ -f $d/patch.diff ] && [ -f $d/demo.py ] && [ -f $d/meta.json ]; then
